@@ -66,6 +66,8 @@ PROP = {  # subject keyword -> (property, failing input)
  'matrix-free components do not leak reverse-mode contributions': ('C24', 'd.a, d.b -> g{e1: y=2a, e2: z=3b} -> matrix-free c: f=5y+7z, desvar d.b only, rev mode: ScipyKrylov totals 4.3547 instead of 21 with relevance on (21 with relevance off / fwd / DirectSolver)'),
  "an approximated group's jacobian holds only its semi-total blocks": ('C01', 'approx_totals group containing implicit / sparse / matrix-free components: wrong totals under non-assembled DirectSolver / ScipyKrylov, LinearBlockGS non-convergence, 0 instead of -0.5 for entries outside a declared dR/dx pattern (props/C01/repro_2.py)'),
  'check_partials approximation of a coo partial with repeated positions': ('C13', 'y = 3x with a scipy coo partial repeating a position ([0,0,1],[0,0,1]): J_fd = [[6,0],[0,3]], abs error 3 for a correct component'),
+ 'ImplicitFuncComp orders reverse-mode jacobian blocks of states by output': ('C34', 'ImplicitFuncComp, jax partials in reverse direction, states s0, s1 given in the signature as (s1, s0): the two state column blocks are exchanged (partial[1,3] = 1.0428, exact 0.0)'),
+ 'func components with a single scalar output and a forward jax coloring': ('C34', "ExplicitFuncComp / ImplicitFuncComp with one output of shape () and a forward jax coloring: IndexError 'tuple index out of range'"),
  'check_partials works on private copies': ('C13', "check_partials(method='fd', step=[0.5, 0.25]) on a dense partial: J_fd[0] is J_fd[1] (last step's values); constant val= partials overwritten by the approximation (second check reports zero error, compute_totals returns 2 instead of 5)"),
  'InterpND.gradient returns the derivative at the point': ('C16', 'akima 2-D table: interpolate(x); gradient(x) returns np.empty garbage for sub-dimensions ([[-2.127, 0.]] instead of [[-2.127, -2.983]]); gradient(x) after an in-place change of x returns the old gradient'),
  'check_partials reports every approximated nonzero': ('C13', 'diagonal-declared 4x4 with 8 off-diagonal nonzeros: rows/cols, coo, csc reported 2, csr none, diagonal=True raised KeyError'),
